@@ -338,7 +338,7 @@ func genPlock(r *rand.Rand) gcase {
 	exp := dedup(npmExpect(tree, nil))
 	// a git dependency is keyed by its commit: two of them with the same name are two packages with the same (name, "") pair in v1
 	if ver == 1 {
-		exp = dedup(append(npmExpectV1(tree), nokey...))
+		exp = append(npmExpectV1(tree), nokey...)
 	} else {
 		exp = npmExpectV2(tree)
 	}
